@@ -82,6 +82,7 @@ type Machine struct {
 	urls       map[string]*urlDecl
 	urlOrigin  map[*value]*urlOrigin
 	known      map[string]bool // agentF1: renderings of the asserted path-condition conjuncts
+	allFeasible bool           // agentF1: set by zz.Choice around decideN (fresh variable: all alternatives feasible)
 	c19s       *c19State
 	xsolver    *Solver // second solver (thorough tier): cross-checks every unsat verdict
 }
@@ -179,6 +180,10 @@ func (m *Machine) decideN(conds []*Term) int {
 	// new decision: find feasible alternatives
 	var feas []int
 	for i, c := range conds {
+		if m.allFeasible {
+			feas = append(feas, i)
+			continue
+		}
 		if c.IsConst() {
 			if c.B {
 				feas = append(feas, i)
